@@ -170,6 +170,19 @@ def listed():
     add("p-benzoquinone", [C] * 6 + [O, O], [(0, 1, 1), (1, 2, 2), (2, 3, 1), (3, 4, 1), (4, 5, 2), (5, 0, 1), (0, 6, 2), (3, 7, 2)])
     add("acetic-acid", [C, C, O, O], [(0, 1, 1), (1, 2, 2), (1, 3, 1)])
     add("urea", [N, C, N, O], [(0, 1, 1), (1, 2, 1), (1, 3, 2)])
+    # two cumulated units joined through sp2 atoms need two bonds of one atom raised; combined with triple bonds elsewhere (in the
+    # chain, as a substituent, in a separate fragment) and with S(VI)
+    tet = [(0, 1, 2), (1, 2, 2), (2, 3, 1), (3, 4, 2), (4, 5, 2)]
+    add("hexatetraene-1245", [C] * 6, tet)
+    add("ethynyl-hexatetraene", [C] * 8, tet + [(5, 6, 1), (6, 7, 3)])
+    add("hexatetraene+ethyne", [C] * 8, tet + [(6, 7, 3)])
+    add("cyano-hexatetraene", [C] * 7 + [N], tet + [(5, 6, 1), (6, 7, 3)])
+    add("bisketene", [O, C, C, C, C, O], tet)
+    add("bisketene+HCN", [O, C, C, C, C, O, C, N], tet + [(6, 7, 3)])
+    add("octatetraene-1267", [C] * 8, [(0, 1, 2), (1, 2, 2), (2, 3, 1), (3, 4, 2), (4, 5, 1), (5, 6, 2), (6, 7, 2)])
+    add("mesyl-cyanide", [N, C, S6, O, O, C], [(0, 1, 3), (1, 2, 1), (2, 3, 2), (2, 4, 2), (2, 5, 1)])
+    add("sulfur-diimide-oxide+ethyne", [S6, N, N, O, C, C], [(0, 1, 2), (0, 2, 2), (0, 3, 2), (4, 5, 3)])
+    add("metaphosphate-ester", [C, O, P5, O, O], [(0, 1, 1), (1, 2, 1), (2, 3, 2), (2, 4, 2)])
     add("cyclopentadiene", [C] * 5, [(0, 1, 2), (1, 2, 1), (2, 3, 2), (3, 4, 1), (4, 0, 1)])
     add("anthracene", [C] * 14, [(0, 1, 2), (1, 2, 1), (2, 3, 2), (3, 4, 1), (4, 5, 2), (5, 0, 1), (4, 6, 1), (6, 7, 2), (7, 8, 1),
                                   (8, 9, 2), (9, 5, 1), (7, 10, 1), (10, 11, 2), (11, 12, 1), (12, 13, 2), (13, 8, 1)])
